@@ -139,7 +139,7 @@ def check_bounds(ctx):
     ctx.check(len(lsw) == 1, inst, "PIN", body.path, "limit test is `results.len() >= limit`", None)
     R.guard(ctx, inst, body, push, A.pred_edges(body, lim_cmp, "true"), "a key is pushed only while fewer than `limit` were collected")
     # value resolution: Ok => push; StaleExtent | KeyNotFound => advance without pushing; other errors returned
-    rv = ctx.sites(body, R.call("FeoxStore::resolve_value_ref"), inst, exact=1)
+    rv = ctx.sites(body, R.call_reaching("FeoxStore::resolve_record_value", within="FeoxStore"), inst, exact=1)
     R.guard(ctx, inst, body, push, R.guard_edges_for_call(body, rv, "Ok"), "a pair is pushed only when the value was resolved")
     if push and rv:
         t = R.arg_expr(body, body.nodes[push[0]], 1)
